@@ -15,6 +15,7 @@ EXPLANATION = (
     "graph is acyclic (each recursion cycle passes a depth check); (K5b) the same for translators, binder, optimizer and "
     "planners, whose recursion follows AST/plan depth; (K7, information only) FFI entry points and catch_unwind. "
     "A division / remainder trap is discharged only when every path establishes divisor != 0 and (divisor != -1 or dividend != MIN). "
+    "K5: the depth limit itself is at most 1000; (K6) every float-to-usize conversion in query-reachable code is bounded at its use or fed only from float fields whose every producer clamps raw values. "
     "Slice-index bounds, allocation size and parser-loop progress are not decided.")
 ASSUMPTIONS = ["overflow checks are on in the profile the tests run in (dev/test), so an arithmetic Assert is a reachable panic",
                "rapid type analysis from the session entry points decides which operators are reachable"]
